@@ -42,8 +42,12 @@ Lemma limits_are_spec :
      depth_ok ds da dv (VStruct l)
      = (ds + 1 <=? max_struct_depth) && (ds + da + dv + 1 <=? max_total_depth) && forallb (depth_ok (ds + 1) da dv) l).
 Proof.
-  intros H. injection H as -> -> ->. repeat split; try reflexivity.
-  - apply dcheck_ok_iff.
-  - apply dcheck_ok_iff.
-  - intros d. destruct (dcheck_err d _ eq_refl) as [E|[k E]]; [left|right; exists k]; exact E.
+  intros H.
+  assert (Hs : max_struct_depth = 32) by exact (f_equal (fun t => fst (fst t)) H).
+  assert (Ha : max_array_depth = 32) by exact (f_equal (fun t => snd (fst t)) H).
+  assert (Ht : max_total_depth = 64) by exact (f_equal snd H).
+  rewrite Hs, Ha, Ht.
+  split; [intros d; apply dcheck_ok_iff|].
+  split; [intros d; destruct (dcheck_err d _ eq_refl) as [E|[k E]]; [left|right; exists k]; exact E|].
+  repeat split.
 Qed.
